@@ -80,6 +80,19 @@ CHECKS = {
         technique="TLC-judged encodings from the real encoder (exhaustive small sets) + TLC-computed decode table replayed + parser embedding",
         design="4/C12",
     ),
+    "C18": dict(
+        specs=["PEImageR.tla", "VersionR.tla", "Version.tla", "PEImageIO.tla"],
+        text="PEImageR is a byte-exact TLA+ layout of a stage around a PE image (DOS header, e_lfanew, file/optional header, "
+        "section table, export directory); TLC renders every scenario (arch x e_lfanew x prepend length up to 1023 x export "
+        "placement x append kind x magic variant) to bytes with the artifacts a reader must report, and the harness runs "
+        "pe.find_* and BeaconConfig.from_bytes on them. The live version tables are exported from the running library and "
+        "walked entry by entry by Version.tla (parse, ascending keys, monotone versions and dates); BeaconVersion parsing and "
+        "the export-stamp-over-max-index precedence are judged by TLC on recorded calls.",
+        note="Trusted: TLC, PEImageR (written from the PE/COFF layout), VersionR.Parse. Stamps in rendered images are < 2^31. "
+        "Scenario precondition (no accidental DOS header inside the prepend) is checked by independent brute force.",
+        technique="TLA+ layout operators rendered by TLC and replayed into the code; live tables model-checked by TLC; calls judged by TLC",
+        design="4/C18",
+    ),
 }
 
 NOT_YET = "check not built yet in this round; planned in DESIGN.md section 4"
